@@ -79,6 +79,27 @@ audience
 end
 """
 REPEAT = "  repeat from z\n  repeat 2 times\n"
+# the last recorded time is a sample of a variable nobody plots: the only auditor stops auditing early and reads `t`
+# without watching it, so the final round records `t` in csv/chk..t.csv and nothing else happens at that instant
+QUIETEND = """role doer
+  :work echo "value 1" >>out.log; sleep 0.3
+  spotlight touch out.log; tail -F out.log
+  signal v scalar at (?P<ts_now>)value (?P<scalar>\\d+)
+end
+cast
+  bob plays doer
+end
+script
+  tempo 400ms
+  scene a entails for bob: work
+  storyline a.a.a
+end
+audience
+  chk watches bob v
+  chk audits only while t < 0.5
+  chk expects always: [bob v] == 1
+end
+"""
 # the repeated act holds no action and no mood: nothing but the act starts themselves is recorded during it (fix c9d1f38)
 IDLEPLAY = """role r
   :tick true
@@ -351,6 +372,9 @@ def run(tier, seed):
             text = PASTPLAY % {"lag": lag, "lag2": lag - 1}
             plays.append(e2e.Play(text, args=args, outdir_arg="out", timeout=60, keep=True))
             meta.append({"flags": args, "fouled": False, "outdir": "out", "oarg": "out", "repeat": False, "upload": None, "config": text, "how": None, "past": True})
+        for n, args in enumerate((["--disable-plots"], [])):
+            plays.append(e2e.Play(QUIETEND, args=args, outdir_arg="out", timeout=60, keep=True))
+            meta.append({"flags": args, "fouled": False, "outdir": "out", "oarg": "out", "repeat": False, "upload": None, "config": QUIETEND, "how": None, "quiet_end": True})
         for n, args in enumerate(([], ["-k"])):
             plays.append(e2e.Play(IDLEPLAY, args=args, outdir_arg="out", timeout=60, keep=True))
             meta.append({"flags": args, "fouled": False, "outdir": "out", "oarg": "out", "repeat": True, "upload": None, "config": IDLEPLAY, "how": None, "idle": True})
